@@ -32,13 +32,13 @@ func Validate(namespaces []*Namespace) (*Environment, error) {
 		validateRecordFieldNames,
 		validateProtocolSequenceNames,
 		validateArrayAndVectorDimensions,
-		validateMaps,
 		validateStreams,
 		buildSymbolTable,
 		resolveTypes,
 		assignUnionCaseTags,
 		topologicalSortTypes,
 		convertGenericReferences,
+		validateMaps,
 		validateUnionCases,
 		validateEnums,
 		resolveComputedFields,
